@@ -18,6 +18,12 @@ namespace Icinga.C09
 
 abbrev Bytes := List UInt8
 
+instance {ε α : Type} [DecidableEq ε] [DecidableEq α] : DecidableEq (Except ε α)
+  | .ok a, .ok b => if h : a = b then isTrue (by rw [h]) else isFalse (fun e => h (by cases e; rfl))
+  | .error a, .error b => if h : a = b then isTrue (by rw [h]) else isFalse (fun e => h (by cases e; rfl))
+  | .ok _, .error _ => isFalse (fun e => by cases e)
+  | .error _, .ok _ => isFalse (fun e => by cases e)
+
 def DOLLAR : UInt8 := 36   -- '$'
 def SQUOTE : UInt8 := 39   -- '\''
 def BSLASH : UInt8 := 92   -- '\\'
@@ -372,7 +378,7 @@ def resolveArgs (objs : List Obj) (level : Nat) : List ArgSpec → Except Err (L
     inside a class of equal `Order` is unspecified in C++ — the driver compares modulo that). -/
 def insertArg (a : RArg) : List RArg → List RArg
   | [] => [a]
-  | b :: bs => if b.order ≤ a.order then b :: insertArg a bs else a :: b :: bs
+  | b :: bs => if b.order < a.order then b :: insertArg a bs else a :: b :: bs
 
 def sortArgs : List RArg → List RArg
   | [] => []
